@@ -341,8 +341,8 @@ impl Check for C19 {
         vec![
             PhaseSpec { name: "mangle", cases: CLASSES.len() as u64, max_bytes: 0, exhaustive: true },
             PhaseSpec { name: "directed", cases: DIRECTED.len() as u64, max_bytes: 0, exhaustive: true },
-            PhaseSpec { name: "renamed-small", cases: tier.pick(20_000, 300_000), max_bytes: 200, exhaustive: false },
-            PhaseSpec { name: "renamed", cases: tier.pick(30_000, 500_000), max_bytes: 500, exhaustive: false },
+            PhaseSpec { name: "renamed-small", cases: tier.pick(40_000, 300_000), max_bytes: 200, exhaustive: false },
+            PhaseSpec { name: "renamed", cases: tier.pick(60_000, 500_000), max_bytes: 500, exhaustive: false },
         ]
     }
     fn make(&self, phase: &str, index: u64, bytes: &[u8], ctx: &mut Ctx) -> Case {
